@@ -1416,6 +1416,18 @@ def _purity_global_stmt_checked():
     return "true" if "elif isinstance(node, ast.Global):\n            found.extend(node.names)" in t and "return found" in t else "false"
 
 
+@fact("purity_gloads_checked", "bool", "false")
+def _purity_gloads_checked():
+    """_find_non_builtin_globals also reports every name that the code object or any nested one looks up with LOAD_GLOBAL /
+    STORE_GLOBAL / DELETE_GLOBAL (read off the compiled code with dis) unless it is an unshadowed builtin"""
+    g = _src(find("gateway.py", "_find_non_builtin_globals"))
+    ok = "for name in _global_lookups(codeobj):\n        if name not in found and (name not in builtins.__dict__ or shadowed(name)):\n            found.append(name)\n    return found" in g
+    h = [_src(n) for n in _body_nodoc(find("gateway.py", "_global_lookups"))]
+    ok = ok and h == ["import dis", "for instruction in dis.get_instructions(codeobj):\n    if instruction.opname in ('LOAD_GLOBAL', 'STORE_GLOBAL', 'DELETE_GLOBAL'):\n        yield instruction.argval",
+                      "for const in codeobj.co_consts:\n    if isinstance(const, types.CodeType):\n        yield from _global_lookups(const)"]
+    return "true" if ok else "false"
+
+
 @fact("purity_check_shape_ok", "bool", "false")
 def _purity_check_shape_ok():
     """_source_of_function: lambda refused, first argument must be `channel`, closures refused, every ast.Name of the
